@@ -174,6 +174,16 @@ def _char_value(repo: Repo, f: FuncInfo, e: ast.expr, depth: int = 0) -> str | N
     return None
 
 
+def _declared_node_name(f: FuncInfo, param: str) -> bool:
+    """The parameter is annotated with one of the node-name types of the graph interface (Node, AbstractNode, ModuleName)."""
+    ann = next((p.annotation for p in f.params if p.arg == param), None)
+    if ann is None:
+        return False
+    if isinstance(ann, ast.Constant) and isinstance(ann.value, str):
+        return ann.value.strip() in NAME_ANNOTATIONS
+    return isinstance(ann, (ast.Name, ast.Attribute)) and (ann.id if isinstance(ann, ast.Name) else ann.attr) in NAME_ANNOTATIONS
+
+
 def _is_local(f: FuncInfo, name: str) -> bool:
     key = ("stored_names", id(f.node))
     if key not in _cache:
@@ -866,6 +876,8 @@ class Origins:
         if name in f.param_names:
             if binds:
                 return opaque  # re-bound parameter: flow-insensitive view is not sound enough here
+            if not pos and _declared_node_name(f, name):
+                return [(f, e, "value")]  # Node / AbstractNode / ModuleName: a plain module name by its declared type
             args = _callers_args(self.repo, f, name)
             if not args:
                 return opaque
@@ -937,6 +949,8 @@ class Origins:
         if isinstance(c, ast.Call):
             nm = _call_name(c)
             if isinstance(c.func, ast.Name):
+                if nm in ("set", "list", "tuple", "dict", "frozenset", "deque") and not c.args and not c.keywords:
+                    return []  # empty
                 if nm in WRAPPERS and c.args:
                     return self.elements(f, c.args[0], d, seen, pos)
                 if nm == "enumerate" and c.args:
@@ -1124,6 +1138,8 @@ def _leaf_status(repo: Repo, g: FuncInfo, e: ast.expr, kind: str, depth: int) ->
                 x = x.func.value if isinstance(x.func, ast.Attribute) else x
         if isinstance(x, ast.Attribute) and x.attr in ("nodes", "modules"):
             return "bare"
+        if isinstance(x, ast.Call) and isinstance(x.func, ast.Attribute) and x.func.attr in ("successors", "predecessors", "neighbors", "nodes", "ancestors", "descendants"):
+            return "bare"  # networkx: nodes of the graph
         return "unknown"
     if isinstance(e, ast.Constant):
         if e.value is None:
